@@ -436,6 +436,21 @@ func runC26(c *Ctx) {
 			c.Violate("handshake-callers-disagree", "callers returned different handshake errors: %q vs %q", bErr, hc.err)
 		}
 	}
+	// (O3b) the library closes the transport on behalf of a cancelled context only together with
+	// reporting that context's error: if no caller reported one and nothing else closed the
+	// connection, a client transport found closed after the first phase was closed behind the back
+	// of callers that were told "nil"
+	if transportClosedAfterPhase1 && closer == 0 && !classA && H && o.HelloRequests == 0 {
+		allNil := true
+		for _, hc := range callers {
+			if hc.err != nil {
+				allNil = false
+			}
+		}
+		if allNil {
+			c.Violate("nil-but-connection-closed-by-library", "every Handshake caller returned nil, there is no closer task, yet the client transport was closed when the first phase ended: %s", describeCallers(callers))
+		}
+	}
 	for i, hc := range callers {
 		if hc.err == nil && !H {
 			c.Violate("nil-without-completion", "caller %d returned nil but the handshake never completed", i)
